@@ -88,6 +88,39 @@ Fixpoint run (n polls fuel : nat) (s : st) (tr : list ev) : list (rres * st) :=
   | Some (r, s', tr') => (r, s') :: run n polls fuel s' tr'
   end end.
 
+(* Poll-level view (C07): a sequence of polls of receive operations.  A receive future holds no
+   state of its own between polls (the only await is the transport read and all cursor updates
+   happen synchronously after it returns, read_connection.rs:157-163), so one poll is
+   [poll_receive] on the connection state.  [drive p] performs p polls, starting a new operation
+   whenever the previous one completed. *)
+Fixpoint drive (p fuel : nat) (s : st) (tr : list ev) : list (rres * st) :=
+  match p with O => [] | S p =>
+  match poll_receive fuel s tr with
+  | (Some r, s', tr') => (r, s') :: drive p fuel s' tr'
+  | (None, s', tr') => match tr' with [] => [] | _ => drive p fuel s' tr' end
+  end end.
+
+(* The same with cancellation: after a poll that returned Pending the schedule says whether the
+   pending future is dropped (true) and a fresh receive is created, or kept (false).  Dropping a
+   future discards its local state - which is empty - and leaves the connection record alone. *)
+Inductive opstate := Fresh | Suspended.
+Definition poll_op (o : opstate) (fuel : nat) (s : st) (tr : list ev) := poll_receive fuel s tr.
+Fixpoint drive_c (p fuel : nat) (sched : list bool) (o : opstate) (s : st) (tr : list ev)
+  : list (rres * st) :=
+  match p with O => [] | S p =>
+  match poll_op o fuel s tr with
+  | (Some r, s', tr') => (r, s') :: drive_c p fuel sched Fresh s' tr'
+  | (None, s', tr') =>
+      match tr' with
+      | [] => []
+      | _ => match sched with
+             | true :: sched' => drive_c p fuel sched' Fresh s' tr'       (* dropped, re-created *)
+             | false :: sched' => drive_c p fuel sched' Suspended s' tr'  (* polled again *)
+             | [] => drive_c p fuel [] Suspended s' tr'
+             end
+      end
+  end end.
+
 Fixpoint payload (tr : list ev) : list byte :=
   match tr with Data bs :: tr' => bs ++ payload tr' | _ :: tr' => payload tr' | [] => [] end.
 
